@@ -10,7 +10,9 @@ import (
 	"go/token"
 	"go/types"
 	"math"
+	"os"
 	"strings"
+	"sync"
 
 	"golang.org/x/tools/go/ssa"
 )
@@ -40,6 +42,7 @@ type frame struct {
 	defers    []deferred
 	panicking *progPanic
 	prev      *ssa.BasicBlock
+	phiDone   *ssa.BasicBlock
 	results   Value
 }
 
@@ -65,6 +68,13 @@ type Interp struct {
 	depth    int
 	storeLog func(Ptr, Value)
 
+	spec        int
+	specFloor   int
+	merges      int
+	mergeAborts int
+	noMerge     bool
+	ipdomMu     *sync.Mutex
+
 	replacements map[string]FuncV
 	curPanicFr   []*frame
 	funcsSeen    map[string]bool
@@ -75,11 +85,19 @@ func NewInterp(prog *ssa.Program, cfg FloatCfg, ex *Explorer) *Interp {
 	in := &Interp{prog: prog, tt: NewTermTable(), cfg: cfg, ex: ex,
 		globals: map[*ssa.Global]*Obj{}, inited: map[*ssa.Package]bool{}, saved: map[*Obj]Value{},
 		sizes: types.SizesFor("gc", "amd64"), replacements: map[string]FuncV{}, funcsSeen: map[string]bool{},
-		notes: map[string]bool{}, mainPkgs: map[*ssa.Package]bool{}}
+		notes: map[string]bool{}, mainPkgs: map[*ssa.Package]bool{}, ipdomMu: &globalIpdomMu}
+	in.noMerge = os.Getenv("VERIF_NOMERGE") != ""
 	return in
 }
 
+var globalIpdomMu sync.Mutex
+var branchStats map[string]int
+var branchStatsMu sync.Mutex
+
 func (in *Interp) goPanic(msg string) {
+	if in.spec > 0 {
+		panic(&specAbort{"panic in arm: " + msg})
+	}
 	panic(&progPanic{val: IfaceV{t: types.Typ[types.String], v: in.strConst(msg)}, msg: msg})
 }
 
@@ -254,6 +272,9 @@ func (in *Interp) branch(c *Term, why string) bool {
 	if in.initMode {
 		panic(unsupported("symbolic branch during init"))
 	}
+	if in.spec > 0 {
+		panic(&specAbort{"fork in arm: " + why})
+	}
 	return in.ex.Branch(c, why)
 }
 
@@ -368,6 +389,7 @@ func (in *Interp) invoke(c *ssa.CallCommon, args []Value, site ssa.Instruction) 
 func (in *Interp) runBlocks(fr *frame, b *ssa.BasicBlock) Value {
 	for {
 		var next *ssa.BasicBlock
+		merged := false
 		for _, instr := range b.Instrs {
 			in.steps++
 			if in.steps > in.maxSteps {
@@ -378,6 +400,25 @@ func (in *Interp) runBlocks(fr *frame, b *ssa.BasicBlock) Value {
 				next = b.Succs[0]
 			case *ssa.If:
 				c := in.term(in.eval(fr, x.Cond))
+				if !c.IsConst() && !in.initMode {
+					if j, ok, rv, isRet := in.tryMerge(fr, b, c); ok {
+						if isRet {
+							return rv
+						}
+						next = j
+						merged = true
+						break
+					}
+				}
+				if branchStats != nil && !c.IsConst() {
+					pos := in.prog.Fset.Position(x.Cond.Pos())
+					if !pos.IsValid() {
+						pos = in.prog.Fset.Position(fr.fn.Pos())
+					}
+					branchStatsMu.Lock()
+					branchStats[fmt.Sprintf("%s:%d (%s)", pos.Filename, pos.Line, fr.fn.Name())]++
+					branchStatsMu.Unlock()
+				}
 				if in.branch(c, "if") {
 					next = b.Succs[0]
 				} else {
@@ -422,6 +463,10 @@ func (in *Interp) runBlocks(fr *frame, b *ssa.BasicBlock) Value {
 			panic(fmt.Sprintf("block %d of %s fell through", b.Index, fr.fn))
 		}
 		fr.prev = b
+		fr.phiDone = nil
+		if merged {
+			fr.phiDone = next
+		}
 		b = next
 	}
 }
@@ -446,6 +491,9 @@ func (in *Interp) exec(fr *frame, instr ssa.Instruction) {
 		o := in.newObj(in.zero(x.Type().(*types.Pointer).Elem()), x.Comment)
 		fr.locals[x] = Ptr{obj: o}
 	case *ssa.Phi:
+		if fr.phiDone == x.Block() {
+			return
+		}
 		for i, p := range x.Block().Preds {
 			if p == fr.prev {
 				fr.locals[x] = in.eval(fr, x.Edges[i])
